@@ -89,13 +89,19 @@ func runLoopCases(cases []HCase, dir string) []HResult {
 			panic("loop child died outside a case: " + stderr.String())
 		}
 		hc := cases[begun]
-		res := HResult{Code: 1, Msg: "the process died: " + stderr.String(), Events: []Ev{}, Cursors: [][2]int{}, Clips: []string{}}
+		res := HResult{Code: 1, Msg: "the process died: " + stderr.String(), Events: []Ev{}, Cursors: [][2]int{}, Clips: [][]byte{}}
 		// what is needed to print the case: state before and the delivered items (recomputed;
 		// a fresh instance with the same profile starts in the same state)
 		in := newInst(hx.ProfileFromMask(hc.Mask, 24, 80), hc.QSize)
 		res.Init = snapOf(in.vx)
 		res.CapsTerm, res.CapsOn = capsTerm(in.vx)
 		in.close(true)
+		if len(hc.Pre) > 0 {
+			for _, it := range parseItems(append(append([]byte(nil), hc.Pre...), holdMarkerBytes...)) {
+				it := it
+				res.Steps = append(res.Steps, Step{It: &it})
+			}
+		}
 		for _, s := range hc.Plan {
 			res.Steps = append(res.Steps, Step{It: s.It, App: s.App})
 		}
@@ -192,6 +198,30 @@ func (g *gen) loopCase(maxTok int) HCase {
 		hc.Plan = []Step{{App: "AClipWait"}}
 		ts = append(ts, token{"reply-osc52-solicited", "\x1b]52;c;aGVsbG8gd29ybGQ=\x1b\\"})
 		hc.Tags = append(hc.Tags, "app-clip-wait")
+	case 3:
+		// earlier traffic: clipboard reports (and anything else) that arrived while no call was in
+		// progress, then a ClipboardPop whose own answer may or may not come
+		pre := g.stream(1 + maxTok/2)
+		for i, n := 0, 1+g.n(2); i < n; i++ {
+			k := g.n(len(pre) + 1)
+			pre = append(pre[:k:k], append([]token{g.osc52Text()}, pre[k:]...)...)
+		}
+		ps, ptags := joinTokens(pre)
+		hc.Pre = []byte(ps)
+		hc.Plan = []Step{{App: "AClipWait"}}
+		if g.n(3) != 0 {
+			k := g.n(len(ts) + 1)
+			ts = append(ts[:k:k], append([]token{g.osc52Text()}, ts[k:]...)...)
+		}
+		hc.Tags = append(hc.Tags, "earlier-traffic", "app-clip-wait", "clip-unsolicited-then-call")
+		hc.Tags = append(hc.Tags, ptags...)
+	case 4:
+		// earlier traffic of any kind (state left behind: paste bracket open, reply channels
+		// filled, a request flag), no call
+		ps, ptags := joinTokens(g.stream(maxTok))
+		hc.Pre = []byte(ps)
+		hc.Tags = append(hc.Tags, "earlier-traffic")
+		hc.Tags = append(hc.Tags, ptags...)
 	case 2:
 		// slow consumer: tiny queue, the application starts reading late (no non-blocking posts
 		// in the stream: those are dropped by design when the queue is full)
@@ -202,9 +232,77 @@ func (g *gen) loopCase(maxTok int) HCase {
 	}
 	s, tags := joinTokens(ts)
 	hc.Bytes = []byte(s + sentinelBytes)
-	hc.Show = quoted(hc.Bytes)
+	hc.Show = quoted(hc.allBytes())
 	hc.Tags = append(hc.Tags, tags...)
 	hc.Tags = append(hc.Tags, "loop")
+	return hc
+}
+
+// calls to ClipboardPop against clipboard reports in every arrival order: a report before any
+// call (unsolicited), while a call waits (its answer), after the call has been answered
+// (repeated), after the caller has left (late), and the next call after each of these.
+// Elements: "<W>" a call starts, "<L>" it returns (answered or cancelled), anything else: bytes.
+func clipSchedule(g *gen) []string {
+	var out []string
+	waiting := false
+	for i, n := 0, 2+g.n(6); i < n; i++ {
+		switch g.n(7) {
+		case 0, 1:
+			if waiting {
+				out = append(out, "<L>")
+			} else {
+				out = append(out, "<W>")
+			}
+			waiting = !waiting
+		case 2:
+			out = append(out, g.osc52().bytes)
+		case 3:
+			out = append(out, g.key().bytes)
+		default:
+			out = append(out, g.osc52Text().bytes)
+		}
+	}
+	if !waiting && g.n(2) == 0 {
+		out = append(out, "<W>")
+		if g.n(2) == 0 {
+			out = append(out, g.osc52Text().bytes)
+		}
+	}
+	return out
+}
+
+// direct-mode case from a schedule of byte strings and ClipboardPop calls ("<W>" / "<L>")
+func clipCase(mask uint32, sched []string, tags ...string) HCase {
+	hc := HCase{Mask: mask, Tags: append([]string{"clip-schedule", "direct"}, tags...)}
+	show := ""
+	seenReport, calls := false, 0
+	for _, e := range sched {
+		switch e {
+		case "<W>":
+			hc.Plan = append(hc.Plan, Step{App: "AClipWait"})
+			show += " <ClipboardPop> "
+			calls++
+			if seenReport && calls == 1 {
+				hc.Tags = append(hc.Tags, "clip-unsolicited-then-call")
+			}
+			if calls == 2 {
+				hc.Tags = append(hc.Tags, "clip-second-call")
+			}
+		case "<L>":
+			hc.Plan = append(hc.Plan, Step{App: "AClipLeave"})
+			show += " <returns> "
+		default:
+			for _, it := range parseItems([]byte(e)) {
+				it := it
+				hc.Plan = append(hc.Plan, Step{It: &it})
+				if it.Kind == "osc" {
+					seenReport = true
+				}
+			}
+			show += quoted([]byte(e))
+		}
+	}
+	hc.Show = show
 	return hc
 }
 
@@ -366,6 +464,11 @@ func directed() []HCase {
 			add(loop, m, "repeated-osc11-reply", "\x1b]11;rgb:0000/0000/0000\x07\x1b]11;rgb:1/1/1\x07")
 			add(loop, m, "paste", "a\x1b[200~b\x1b[Ac\x1b[<0;1;1M\x1b[201~d")
 			add(loop, m, "reply-inband", "\x1b[48;30;100;600;1000t")
+			// DCS replies at the boundary of what the handlers index (no style digit, no data,
+			// no parameter)
+			for _, d := range []string{"1$r q", "$r q", "1$rq", "1$r", "1$r  q", "1$r q q", "1+r", "+r", "1+r=", "0+r", "$r", "r", "1$r7 q", "1$r4 q"} {
+				add(loop, m, "reply-dcs-edge", "\x1bP"+d+"\x1b\\")
+			}
 			// a terminal faster than the writer of the cursor-position query
 			for _, f := range [][2]string{
 				{"\x1b[5;7R", "x"},
@@ -380,6 +483,27 @@ func directed() []HCase {
 			} {
 				out = append(out, fastCase(loop, m, f[0], f[1], "directed"))
 			}
+		}
+	}
+	// clipboard reports against calls to ClipboardPop, every arrival order
+	ra, rb, rc := "\x1b]52;c;b2xk\x1b\\", "\x1b]52;c;bmV3\x07", "\x1b]52;p;\x1b\\" // "old" "new" ""
+	for _, m := range []uint32{0, all} {
+		for _, sch := range [][]string{
+			{ra, "<W>", rb},
+			{ra, "x", "<W>", "<L>", "<W>", rb},
+			{"<W>", "<L>", ra, "<W>", rb, "<L>"},
+			{"<W>", ra, rb, "<L>", "<W>", "<L>"},
+			{ra, ra, "<W>", "<L>", "<W>", rb, "<L>", "<W>", rc},
+			{rc, "<W>", "y", ra},
+			{"<W>", "\x1b]52;c;!!!\x07", "\x1b]52;c\x07", rb, "<L>", ra},
+		} {
+			out = append(out, clipCase(m, sch, "directed"))
+		}
+		for _, f := range [][2]string{{ra, rb}, {ra + ra, "x"}, {"a" + ra + "b", "c" + rb + rb}, {rc, ra}} {
+			hc := HCase{Loop: true, Mask: m, Pre: []byte(f[0]), Plan: []Step{{App: "AClipWait"}}, Bytes: []byte(f[1] + sentinelBytes),
+				Tags: []string{"earlier-traffic", "app-clip-wait", "clip-unsolicited-then-call", "directed", "loop"}}
+			hc.Show = quoted(hc.allBytes())
+			out = append(out, hc)
 		}
 	}
 	return out
@@ -547,11 +671,13 @@ func main() {
 
 	nDirect, nLoop, nMouse, nStart, maxTok := 750, 600, 400, 90, 8
 	nFastDirect, nFastLoop := 110, 70
+	nClip := 60
 	raceDelays := []time.Duration{0, 45 * time.Millisecond, 49500 * time.Microsecond, 50 * time.Millisecond, 50500 * time.Microsecond, 55 * time.Millisecond}
 	sizeDelays := []time.Duration{0, 99 * time.Millisecond, 101 * time.Millisecond}
 	if cfg.Thorough() {
 		nDirect, nLoop, nMouse, nStart, maxTok = 12000, 9000, 6000, 1500, 12
 		nFastDirect, nFastLoop = 1600, 1000
+		nClip = 900
 		for i := 0; i < 120; i++ {
 			raceDelays = append(raceDelays, 49*time.Millisecond+time.Duration(g.n(2000))*time.Microsecond)
 		}
@@ -582,9 +708,19 @@ func main() {
 	for i := 0; i < nFastLoop; i++ {
 		loop = append(loop, g.fastCase(true, maxTok))
 	}
+	for i := 0; i < nClip; i++ {
+		direct = append(direct, clipCase(g.mask(), clipSchedule(g)))
+	}
 	outcomes := map[string]int{}
 	addH := func(hc HCase, res HResult) {
 		js := map[string]interface{}{"case": hc, "observed": res}
+		if len(res.Clips) > 0 {
+			var cs []string
+			for _, c := range res.Clips {
+				cs = append(cs, quoted(c))
+			}
+			js["clipboardpop_returned"] = cs
+		}
 		nontrivial := false
 		for _, e := range res.Events {
 			if e.Kind != "key" {
@@ -605,6 +741,10 @@ func main() {
 		}
 		if len(res.Cursors) > 0 {
 			tags = append(tags, "cursor-answered")
+			nontrivial = true
+		}
+		if len(res.Clips) > 0 {
+			tags = append(tags, "clip-answered")
 			nontrivial = true
 		}
 		tags = append(tags, []string{"outcome-ok", "outcome-panic", "outcome-wedged"}[res.Code])
@@ -693,6 +833,6 @@ func main() {
 		"size_reply_race":   srace,
 		"timing_note":       "partial: replies are sent at sampled real delays around the 50 ms (CursorPosition) and 100 ms (reportWinsize) time-outs; only liveness of the loop afterwards is checked",
 	}
-	rule := "handle: a case is non-trivial when the implementation delivered an event other than a plain key, handed a cursor position to a waiting caller, or crashed/wedged; mouse: parseMouseEvent accepted or panicked; startup: at least one capability detected"
+	rule := "handle: a case is non-trivial when the implementation delivered an event other than a plain key, handed a cursor position or a clipboard text to a waiting caller, or crashed/wedged; mouse: parseMouseEvent accepted or panicked; startup: at least one capability detected"
 	cfg.Write("C03", rule, []*hx.Stream{handle, mouse, startup}, extra, append(dv1, dv2...))
 }
